@@ -37,13 +37,15 @@ class C07(Prop):
                    "with a '---' line"]
     deciding = {"exact": {"quick": 2000, "thorough": 20000}, "independent": {"quick": 2000, "thorough": 20000},
                 "unclosed": {"quick": 300, "thorough": 3000}, "split": {"quick": 2000, "thorough": 20000},
-                "cli": {"quick": 200, "thorough": 2000}}
+                "cli": {"quick": 200, "thorough": 2000}, "api-wrapper": {"quick": 2000, "thorough": 20000}}
 
     def cases(self, tier, seed, shard, nshards):
         r = shard_rng(seed, self.id, shard)
         n = 180 if tier == "quick" else 1800
         for i in range(n):
-            lines = [r.choice(FM_LINES) for _ in range(r.randint(0, 8) if r.random() > 0.03 else r.randint(95, 260))]
+            # (a few blocks of hundreds and of more than a thousand lines: a bound somebody might put on the search for the closing line)
+            nlines = r.randint(0, 8) if r.random() > 0.03 else r.choice([r.randint(95, 260), r.randint(95, 260), r.randint(1001, 1100), 4200])
+            lines = [r.choice(FM_LINES) for _ in range(nlines)]
             lines = [ln for ln in lines if ln.strip() != "---"]
             odd = None
             if lines and r.random() < 0.35:
@@ -65,6 +67,10 @@ class C07(Prop):
                 yield dict(case, kind="unclosed", final_nl=r.random() < 0.5)
         if shard == 0:
             yield {"kind": "deepbody"}
+        if shard in (1, 2, 3):
+            # CRLF documents of more than 128 KB in which a CR is the last character of EVERY 64-character block, so that a reader
+            # which takes its input in blocks of any power of two from 64 characters up finds a CRLF pair across each block end
+            yield {"kind": "blockends", "where": ["frontmatter", "body", "both"][shard - 1], "opts": [rand_opts(r, widths=[88]), rand_opts(r, widths=[40])]}
 
     def setup_worker(self, col, tier):
         self.split = None
@@ -77,6 +83,8 @@ class C07(Prop):
     def check(self, case, col: Collector):
         if case["kind"] == "deepbody":
             return self._deepbody(case, col)
+        if case["kind"] == "blockends":
+            return self._blockends(case, col)
         nl = case["nl"]
         lines = case["lines"]
         F = case["opening"] + nl + "".join(ln + nl for ln in lines) + case["closing"] + nl
@@ -123,6 +131,8 @@ class C07(Prop):
                 col.violation("exact", "C07/frontmatter-not-verbatim" + self.oddtag(case), sub,
                               {"line": d[0] if d else None, "want": d[1] if d else None, "got": d[2] if d else None})
                 continue
+            if o is case["opts"][0] or len(lines) > 50:
+                self._api_wrapper(text, Fn, B.replace("\n", nl), o, sub, col)
             col.mon("independent")
             # the same body, with the same line ends as in the document
             alone = fm.fmt(B.replace("\n", nl), **o)
@@ -132,6 +142,62 @@ class C07(Prop):
                 d = first_line_diff(Fn + alone, out)
                 col.violation("independent", "C07/body-formatted-differently-with-frontmatter", sub,
                               {"line": d[0], "alone": d[1], "with_frontmatter": d[2]})
+
+    def _api_wrapper(self, text, Fn, body, o, sub, col):
+        """fill_markdown() called directly with a wrapper supplied by the caller (documented parameter) and with its
+        own keyword arguments: the body is formatted with that wrapper / those arguments behind a frontmatter block too."""
+        w = 30 if o["width"] != 30 else 50
+        for name, mk in (("line_wrap_to_width", lambda: fm.line_wrap_to_width(w, is_markdown=True)),
+                         ("line_wrap_by_sentence", lambda: fm.line_wrap_by_sentence(w, is_markdown=True, min_line_len=8))):
+            col.case()
+            col.mon("api-wrapper")
+            a = fm.call(lambda: fm.fill_markdown(text, line_wrapper=mk()))
+            b = fm.call(lambda: fm.fill_markdown(body, line_wrapper=mk()))
+            if isinstance(a, fm.Raised) or isinstance(b, fm.Raised):
+                col.count("raised_cases_left_to_C12")
+                continue
+            if a != Fn + b:
+                d = first_line_diff(Fn + b, a)
+                col.violation("independent", "C07/fill_markdown-with-caller-wrapper/body-formatted-differently-with-frontmatter", dict(sub, via=name),
+                              {"line": d[0], "alone": d[1], "with_frontmatter": d[2]})
+        kw = {k: o[k] for k in ("width", "semantic", "cleanups", "smartquotes", "ellipses")}
+        kw["list_spacing"] = fm.ListSpacing(o["list_spacing"])
+        col.case()
+        col.mon("api-wrapper")
+        a, b = fm.call(lambda: fm.fill_markdown(text, **kw)), fm.call(lambda: fm.fill_markdown(body, **kw))
+        if isinstance(a, str) and isinstance(b, str) and a != Fn + b:
+            d = first_line_diff(Fn + b, a)
+            col.violation("independent", "C07/fill_markdown-keywords/body-formatted-differently-with-frontmatter", sub,
+                          {"line": d[0], "alone": d[1], "with_frontmatter": d[2]})
+
+    def _blockends(self, case, col):
+        where = case["where"]
+        head = "---\r\n" + "k0: " + "v" * 54 + "\r\n"          # 5 + 60 characters: every later 64-character line ends its CR on a block end
+        fm_lines = 2100 if where in ("frontmatter", "both") else 3
+        F = head + "".join(f"k{j:05d}: " + "x" * 54 + "\r\n" for j in range(fm_lines))
+        closing = "---" + " " * 59 + "\r\n"                   # keeps the 64-character rhythm
+        F += closing
+        body_lines = 2100 if where in ("body", "both") else 4
+        # paragraphs of four 64-character lines, then a blank line padded to keep the rhythm is not possible: use one long paragraph
+        # of words (a CRLF inside a paragraph that turns into two line ends splits the paragraph)
+        B = "".join(("w%05d " % j) + "word " * 10 + "abcde\r\n" for j in range(body_lines))
+        assert all(len(ln) == 63 for ln in (F + B).split("\n")[2:-1]), "rhythm"
+        text = F + B
+        assert text[65535] == "\r" and text[4095] == "\r"
+        Fn = F.replace("\r\n", "\n")
+        for o in case["opts"]:
+            o = dict(o, plaintext=False)
+            want_body = fm.fmt(B.replace("\r\n", "\n"), **o)
+            if isinstance(want_body, fm.Raised):
+                continue
+            col.case()
+            col.mon("exact")
+            out = fm.fmt(text, **o)
+            col.distinct("blockends", where, opts_key(o))
+            if isinstance(out, str) and out != Fn + want_body:
+                d = first_line_diff(Fn + want_body, out)
+                col.violation("exact", "C07/crlf-across-block-ends/text-api", dict(case, opts=[o]), {"line": d[0], "want": d[1], "got": d[2]})
+            self._cli(dict(case, odd="None", blockends_want=Fn + want_body), text, Fn, o, col)
 
     def _deepbody(self, case, col):
         """A body nested deeper than the interpreter can recurse: whatever the formatter does about it (today: it raises),
@@ -179,7 +245,11 @@ class C07(Prop):
                     col.count("cli_nonzero_exit_left_to_C12")
                     continue
                 results[via] = out.getvalue()
-                if not results[via].startswith(Fn):
+                if case.get("blockends_want") is not None and results[via] != case["blockends_want"]:
+                    dd = first_line_diff(case["blockends_want"], results[via])
+                    col.violation("cli", f"C07/cli-{via}/crlf-across-block-ends", {k: v for k, v in case.items() if k != "blockends_want"} | {"opts": [o]},
+                                  {"line": dd[0] if dd else None, "want": (dd[1] or "")[:80] if dd else None, "got": (dd[2] or "")[:80] if dd else None})
+                elif not results[via].startswith(Fn):
                     dd = first_line_diff(Fn, results[via][:len(Fn) + 40])
                     col.violation("cli", f"C07/cli-{via}/frontmatter-not-verbatim" + self.oddtag(case), dict(case, opts=[o]),
                                   {"line": dd[0] if dd else None, "want": dd[1] if dd else None, "got": dd[2] if dd else None})
